@@ -175,7 +175,15 @@ impl Property for C17S {
                 }
                 10 => Block::Call,
                 11 if use_traps => Block::Trapa(rng.range(1, 3) as u8),
-                12 => Block::Arith(rng.u8()),
+                12 => {
+                    if rng.chance(1, 2) {
+                        Block::Arith(rng.u8())
+                    } else {
+                        // registers of the other (unimplemented) timer channels are plain storage: channel 0 must not notice
+                        let addr = *rng.pick(&[0xffff81u32, 0xffff83, 0xffff85, 0xffff87, 0xffff89, 0xffff90, 0xffff91, 0xffff92, 0xffff93, 0xffff94, 0xffff95, 0xffff96, 0xffff97, 0xffff98, 0xffff99]);
+                        Block::Store { addr, val: rng.u8(), short: rng.chance(1, 2) }
+                    }
+                }
                 13 => Block::SetCcr(if irqs && rng.chance(1, 2) { 0x80 } else { 0x00 }),
                 14 if slow_bus => match rng.below(3) {
                     0 => Block::Store { addr: *rng.pick(&[0xfee020u32, 0xfee021, 0xfee022, 0xfee023, 0xfee026]), val: *rng.pick(&[0xffu8, 0x00, 0xcf, 0xfb, 0xe0, 0x30, 0xaa]), short: false },
@@ -200,7 +208,7 @@ impl Property for C17S {
             sub_delay: rng.range(1, 30) as u16,
             init_ccr: Some(if irqs && rng.chance(1, 3) { 0x80 } else { rng.u8() & 0x7f }),
             stack_off: if rng.chance(1, 2) { 0 } else { 4 * rng.below(64) as u16 },
-            exit_style: if rng.chance(1, 2) { 0 } else { rng.below(5) as u8 },
+            exit_style: if rng.chance(1, 2) { 0 } else { rng.below(9) as u8 },
         };
         let est = super::c10::estimate_iters(&guest);
         // from outside: `u8:` writes to timer registers (kept inside the property's domain whatever the guest has in the
